@@ -122,6 +122,11 @@ CLAIMS = {
          "replace_path built from is_subpath and raising otherwise, default translate using the source side's algebra for membership.", "4 C13"),
 }
 
+DT_NOTE = (" In addition (rule <id>.DT, DESIGN.md 7.12): for every function this property's mechanisms live in, the set of states in which the function takes each of its "
+           "actions, the order of its actions and the values they carry equal the recorded decision table (rules/decisions.json) - a change of WHEN / IN WHICH ORDER / WITH WHAT "
+           "the code acts is reported with a witness state; whether the recorded behaviour is right is not decided.")
+
+
 def main():
     checks = []
     for pid, (tech, text, ref) in CLAIMS.items():
@@ -134,9 +139,9 @@ def main():
             "evidence_file": "/verif/evidence/%s.json" % pid,
             "replay_cmd_template": "python3-vt -m sa.replay {path}",
             "engine": "sa",
-            "level_claimed": {"category": "other", "text": text, "design_ref": "DESIGN.md section " + ref},
+            "level_claimed": {"category": "other", "text": text + DT_NOTE, "design_ref": "DESIGN.md section " + ref + " and 7.12"},
             "level_note": COMMON_NOTE,
-            "technique": "static analysis: " + tech,
+            "technique": "static analysis: " + tech + "; reach-condition decision table (structured path conditions as canonical decision diagrams, action order and value rows) over the functions the property's rules anchor in",
         })
     claimed = {c["property_id"] for c in checks}
     na_reasons = {}
